@@ -689,7 +689,9 @@ let run_c15 (s : sess) (r : rng) (corpus : (bool * string) list) =
   let pl = { none with p_state = true; depth = 30; undo_pct = 5; null_pct = 2 } in
   List.iter (fun (d, p, tag) ->
       run_case s (fun () ->
+          prefer_reuse := (tag = "castling_family");
           start s d p; bump ("source_" ^ tag);
+          prefer_reuse := false;
           (* one-feature variations of the start position: side to move, clocks *)
           let f = fen_string d p in
           let h0 = (get_state s).chash in
@@ -714,8 +716,11 @@ let run_c15 (s : sess) (r : rng) (corpus : (bool * string) list) =
               let mp = set_fen_on s.keys (cur s).mp (str_of_string short) d in
               if mp.hash <> c.chash then fail_model "set_fen(%S): hash differs from the model's" short;
               bump "short_fens") [ 4; 5 ];
+          prefer_reuse := (tag = "castling_family");
           start s d p;
-          walk s r pl)) (start_positions r corpus n)
+          prefer_reuse := false;
+          root_children s r pl;
+          walk s r pl)) (List.map (fun (d, p) -> (d, p, "castling_family")) (castling_family r ((if !tier = "quick" then 480 else 6000) / !nshards)) @ start_positions r corpus n)
 
 (* ---------- position-level properties ---------- *)
 let run_positions (s : sess) (r : rng) (corpus : (bool * string) list) (pl : plan) (quick_n : int) (thorough_n : int)
